@@ -204,7 +204,7 @@ var wgSegs = []string{"a", "b", "*", "?", "[ab]", "[^a]", "\\a"}
 
 var wgSpecialPatterns = []string{"/", "", ".", "..", "*/", "/*/", "//", "a//b", "*//a", "//*", "[", "a/[", "*/[", "a*[", "[a/b]x",
 	"\\", "a\\", "[]", "[^]", "[a-]", "[]a]", "/tmp/*", "../*", "./*", "*/../*", "/h*/../*", "/*/.", "*/..", "/*mp", "/[r-t]*",
-	"/home", "/nope", "/a/b", "a/b", "*/*/*/*", "/\\*", "/?o*", "c", "/c/*", "*c*", "/a/./*", "/a/../*", "/./*"}
+	"/home", "/nope", "/a/b", "a/b", ".*", "/.*", "*/.*", "/*/.?", ".?", "/.h", "*/.d/*", "*/*/*/*", "/\\*", "/?o*", "c", "/c/*", "*c*", "/a/./*", "/a/../*", "/./*"}
 
 func wgPatterns(maxSeg int) []string {
 	var out []string
@@ -260,6 +260,27 @@ func genTree(r *rng, hl int, mode int, keepRoot bool) *wgTree {
 			return nil
 		}
 		t.ops = append(t.ops, op)
+		g.snap = w.snapshotEntries()
+	}
+	// names starting with a dot, which the name alphabet of the fs generator lacks: Glob's "*" and ReadDir list them
+	if r.chance(2, 3) {
+		var dirs []string
+		for _, e := range g.snap {
+			if e.kind == 'D' {
+				dirs = append(dirs, e.path)
+			}
+		}
+		for k := 0; k < 2 && len(dirs) > 0; k++ {
+			d := dirs[r.intn(len(dirs))]
+			op := fmt.Sprintf("WF 0 %s s68 420", tok(pjoin(d, ".h")))
+			if k == 1 {
+				op = fmt.Sprintf("MK 0 %s 493", tok(pjoin(d, ".d")))
+			}
+			if res := w.applyGuarded(strings.Fields(op)); res == "DEADLOCK" || res == "PANIC" {
+				return nil
+			}
+			t.ops = append(t.ops, op)
+		}
 		g.snap = w.snapshotEntries()
 	}
 	t.snap = g.snap
@@ -717,7 +738,7 @@ func runWalkGlobOracle(cfg config) {
 	cr := checkRestFlag()
 	jn := 0
 	// runs the queries in a chroot holding the materialised tree, as the acting identity, from the working directory
-	oracle := func(w *fsWorld, snap []snapEntry, user [3]int, cwd string, f func(o wgOps)) {
+	oracle := func(w *fsWorld, snap []snapEntry, user [3]int, cwd string, f func(o wgOps)) bool {
 		jn++
 		j := enterJail(fmt.Sprintf("%s/t%d", scratch, jn))
 		defer j.leave()
@@ -725,10 +746,11 @@ func runWalkGlobOracle(cfg config) {
 		setThreadIdentity(user[0], user[1])
 		if cwd != "/" { // enterJail left the process in "/" (no search permission is needed to stay there)
 			if err := os.Chdir(cwd); err != nil {
-				panic(fmt.Sprintf("oracle: chdir %s as %v: %v", cwd, user, err))
+				return false
 			}
 		}
 		f(hostOps())
+		return true
 	}
 	if rl := cfg.replayLines(); rl != nil {
 		for _, l := range rl {
@@ -739,25 +761,31 @@ func runWalkGlobOracle(cfg config) {
 				fora.WriteString("BUILDFAILED\n")
 				continue
 			}
-			user, cwd := [3]int{0, 0, 1}, "/"
+			user := [3]int{0, 0, 1}
 			for _, op := range ops {
 				t := strings.Fields(op)
 				if t[0] == "SU" {
 					user = [3]int{atoi(t[2]), atoi(t[3]), atoi(t[4])}
 				}
-				if t[0] == "CD" {
-					cwd = untok(t[2])
-				}
+			}
+			cwd, err := w.views[0].Getwd() // where the history (possibly shrunk) actually left MemFS
+			if err != nil {
+				cwd = "/"
 			}
 			var rs, os_ []string
 			for _, q := range qs {
 				rs = append(rs, projOracle(guardedQuery(wo, q)))
 			}
-			oracle(w, w.snapshotEntries(), user, cwd, func(ho wgOps) {
+			ok = oracle(w, w.snapshotEntries(), user, cwd, func(ho wgOps) {
 				for _, q := range qs {
 					os_ = append(os_, projOracle(ho.query(q)))
 				}
 			})
+			if !ok { // the kernel refuses the working directory (a shrunk history may leave it behind a loop): not a case
+				o.emit(l, "INVALID", "")
+				fora.WriteString("INVALID\n")
+				continue
+			}
 			o.emit(l, strings.Join(rs, " | "), "")
 			fora.WriteString(strings.Join(os_, " | ") + "\n")
 		}
@@ -777,7 +805,7 @@ func runWalkGlobOracle(cfg config) {
 		}
 		hdr := fmt.Sprintf("memfs %s %d -", cr, t.um)
 		mo := vfsOps(t.w.views[0])
-		oracle(t.w, t.snap, t.user, t.cwd, func(ho wgOps) {
+		okc := oracle(t.w, t.snap, t.user, t.cwd, func(ho wgOps) {
 			qs := t.queries(r, mo, maxSeg, maxPaths, false, &ho)
 			var keep []string
 			for _, q := range qs {
@@ -795,6 +823,9 @@ func runWalkGlobOracle(cfg config) {
 					fora.WriteString(strings.Join(os_, " | ") + "\n")
 				})
 		})
+		if !okc {
+			o.count("oracle-cwd-refused")
+		}
 	}
 	o.extra["evaluations"] = nq
 	o.extra["trees"] = ntrees
